@@ -444,9 +444,12 @@ def step (H : Hashes) (dirLen : Nat) (s : State) : Op → State × Resp
     | .error e => (s, .err e)
     | .ok rs =>
       let existing := rs.filter fun r => (s.node r.1.1 r.1.2).isSome
+      -- 902249e: after the keys are resolved the bucket must exist: `get_bucket_path(bucket)?.exists()`
       match bucketDir b with
-      | none => (s, .deleted [])                                   -- only reachable with no keys
+      | none => (s, .err .InvalidBucketName)                       -- only reachable with no keys
       | some bd =>
+        if !alHas bd s.buckets then (s, .err .NoSuchBucket)
+        else
         match removeFiles bd (existing.map fun r => (r.1.2, r.2)) s [] with
         | (s1, none) => (s1, .err .InternalError)
         | (s1, some ks) => (s1, .deleted ks)
